@@ -52,6 +52,24 @@ Qed.
 (* ------------------------------------------------------------------------------------------ *)
 (** * C11: presentation *)
 
+(* a good view of a framework is a good view of every other presentation of it: [view_good] only
+   speaks about membership in the argument list and in the attack list *)
+Lemma view_good_equiv : forall g F F', view_good g F -> af_equiv F F' -> wf F' -> view_good g F'.
+Proof.
+  intros g F F' [H1 H2] [HA HT] Hwf. split.
+  - destruct H1 as (N & I1 & Mx & Co & Fr). split; [exact N|]. split; [|split; [|split; [exact Co|]]].
+    + intros a. rewrite I1. apply HA.
+    + intros a Ha. apply Mx. apply HA. exact Ha.
+    + intros a b. rewrite Fr. apply HT.
+  - destruct H2 as [W I1 Mx Fr To At]. constructor.
+    + exact Hwf.
+    + intros a. rewrite I1. apply HA.
+    + exact Mx.
+    + intros a b. rewrite Fr. apply HT.
+    + intros a b. rewrite To. apply HT.
+    + intros a b. rewrite At. apply HT.
+Qed.
+
 Lemma cred_same_members : forall s F A A', (forall a, In a A <-> In a A') -> (cred s F A <-> cred s F A').
 Proof.
   intros s F A A' H. unfold cred. split; intros [S [HS [a [Ha HaS]]]]; exists S; (split; [exact HS|]);
@@ -313,6 +331,7 @@ Proof.
   exact (bool_iff_eq b1 b2 _ _ H1 (done_status _ _ _ _ _ _ _ _ _ _ _ _ _ _ Hok2 Hq E2) (iff_refl _)).
 Qed.
 
+Print Assumptions view_good_equiv.
 Print Assumptions solver_presentation_invariant.
 Print Assumptions solver_renaming_invariant.
 Print Assumptions solver_locality.
